@@ -177,6 +177,8 @@ def run(ctx):
                 # (every thread posts before it waits and init + signals = waits: nobody can starve)
                 ("sem", 0, [["ssignal", "swaiti"], ["ssignal", "swaiti"]]),
                 ("sem", 2, [["swaiti", "swaiti"], ["ssignal", "swaiti"]]),
+                # ... and it takes exactly one token: the try-wait after it finds none left
+                ("sem", 1, [["swaiti", "strywait"]]),
                 ("signal", 0, [["twait", "twait", "wait"], ["twait", "wait"], ["set"]]),
                 ("signal", 0, [["twait", "twait"], ["reset", "set"], ["twait", "wait"]]),
                 # set immediately followed by reset: the waiters that were blocked when set() was called are released all the same
